@@ -217,6 +217,8 @@ type Description struct {
 	Race bool
 	// PlansPerProcess > 0: a worker process executes at most that many plans (cold starts).
 	PlansPerProcess int
+	// AddressSpaceGiB overrides the 6 GiB address-space limit of worker processes.
+	AddressSpaceGiB int
 	// ReportAs: property id under which violations of this scenario are reported (a scenario
 	// that is the second engine of another property's check).
 	ReportAs string
